@@ -381,7 +381,23 @@ func (x *c16Exec) fail(key, format string, a ...any) {
 	panic(c16Stop{verifkit.Fail(key, format, a...)})
 }
 
+// checkDoubleRecovery: every KickedFromServerEvent after the first of a chain is
+// the consequence of a new attempt and therefore preceded by that attempt's
+// ServerPreConnectEvent; two kicked events for the same server with nothing in
+// between mean that two goroutines ran the recovery for one failure at once.
+func (x *c16Exec) checkDoubleRecovery() {
+	x.rig.mu.Lock()
+	ev := append([]c15Event(nil), x.rig.events...)
+	x.rig.mu.Unlock()
+	for i := 1; i < len(ev); i++ {
+		if ev[i].Kind == "kicked" && ev[i-1].Kind == "kicked" && ev[i].Server == ev[i-1].Server {
+			x.fail("recovery:ran-twice-concurrently", "the proxy handled one backend failure of %s twice at the same time (two KickedFromServerEvents with no attempt in between; the second recovery's request then interferes with the first); %s", ev[i].Server, x.describe())
+		}
+	}
+}
+
 func (x *c16Exec) inconclusive(why string) {
+	x.checkDoubleRecovery()
 	// keep the scenario and the observed state for diagnosis (never a verdict)
 	if b, err := json.Marshal(map[string]any{"why": why, "case": x.c, "state": x.describe(), "stacks": c15Stacks("go.minekube.com/gate/pkg/edition/java", nil)}); err == nil {
 		_ = os.WriteFile(filepath.Join(verifkit.WorkDir(), fmt.Sprintf("inconclusive-C16-%d-%d.json", os.Getpid(), x.reqN)), b, 0o644)
@@ -449,7 +465,29 @@ func (x *c16Exec) describe() string {
 	for _, e := range r.events {
 		ev = append(ev, e.Kind+":"+e.Server)
 	}
+	for _, d := range r.dials {
+		if s := d.Sess; s != nil && s.openLocked() {
+			fmt.Fprintf(&sb, "{%s preRx:", s.name)
+			for _, rx := range s.preRx {
+				fmt.Fprintf(&sb, " %#x/%d", rx.ID, len(rx.Payload))
+			}
+			fmt.Fprintf(&sb, " sent=%d proxyRead=%d proxyWrote=%d got=%d} ", s.sent, s.peer.delivered, s.peer.written, s.got)
+		}
+	}
 	cl := r.client
+	fmt.Fprintf(&sb, "client{last play rx:")
+	for i := len(cl.play) - 8; i < len(cl.play); i++ {
+		if i >= 0 {
+			fmt.Fprintf(&sb, " %#x/%d", cl.play[i].ID, len(cl.play[i].Payload))
+		}
+	}
+	fmt.Fprintf(&sb, " | cfg rx:")
+	for i := len(cl.cfgRx) - 8; i < len(cl.cfgRx); i++ {
+		if i >= 0 {
+			fmt.Fprintf(&sb, " %#x/%d", cl.cfgRx[i].ID, len(cl.cfgRx[i].Payload))
+		}
+	}
+	fmt.Fprintf(&sb, " st=%d sent=%d proxyRead=%d proxyWrote=%d got=%d} ", cl.st, cl.sent, cl.peer.delivered, cl.peer.written, cl.got)
 	fmt.Fprintf(&sb, "client[kicked=%v %q closed=%v joins=%d startUpdates=%d cfgFinished=%d handleDone=%v] ", cl.kicked, c15Printable(cl.kickPayload), cl.rdDone, cl.joins, cl.startUpdates, cl.cfgFinished, r.handleDone)
 	return sb.String() + "events=" + strings.Join(ev, ",")
 }
@@ -506,6 +544,7 @@ func (x *c16Exec) quiescent(site string) {
 	if len(herr) > 0 {
 		x.fail("harness:error", "%v", herr)
 	}
+	x.checkDoubleRecovery()
 	alive := x.alive()
 	cur := ""
 	if alive {
